@@ -4,6 +4,8 @@ import FluentProofs.SerializerLineSplit
 import FluentProofs.SerializerSources
 import FluentProofs.SerializerSelect
 import FluentProofs.SerializerFinal
+import FluentProofs.SerializerOutValid
+import FluentProofs.SerializerOutShape5
 /-!
 # C04 — serializer round trip
 
@@ -1406,5 +1408,120 @@ def fixture_zero_length : Src :=
     #[]
 #guard inClass fixture_zero_length true == true && inClass fixture_zero_length false == true
 example : (inClass fixture_zero_length true == true && inClass fixture_zero_length false == true) = true := by decide +kernel
+
+/-! ## the other half: every tree the parser produces is in the class
+
+`roundtrip_class_sources` needs `RoundTrippable withJunk (tree)`.  This section proves it for parser
+output: for EVERY `String` without the byte 13 (`CRFree`) the parse tree is in the class — except for its
+Junk entries — hence both full statements hold for all such sources when serialising without Junk
+(`C04_roundtrip_crfree_nojunk`), and with `with_junk = true` when the tree contains no Junk
+(`C04_roundtrip_crfree_junkfree`).  What is left of the full statement is kept visible as the two `def`s
+`C04_roundtrip_cr_open` (sources that contain `\r`) and `C04_roundtrip_junk_open` (Junk re-emitted
+verbatim with `with_junk = true`); `C04_roundtrip_of_open` shows that they are all that is left. -/
+
+/-- the string contains no carriage return (byte 13) -/
+def CRFree (str : String) : Prop := ∀ j : Nat, str.toUTF8.data[j]? ≠ some (13 : UInt8)
+
+/-- **(b) PATTERN SHAPE.**  For every byte source without `\r`, every fuel and every start position: the
+pattern `get_pattern` returns (resolved to bytes, after its dedent + trim post-pass) is in the class
+`mlPattern` — non-empty; every text non-empty, without `\r` `{` `}`, `\n` only as its last byte; two texts
+adjacent only across a line break; a text that starts a line is a blank line `"\n"`, or spaces followed by
+a byte other than ` ` `\n` `.` `[` `*`, or only spaces directly in front of a placeable; the last text
+does not end with ` ` / `\n`; the first text fits the layout `serialize_pattern` chooses; and if the
+pattern is multi-line, some line has no excess indentation (or no line takes part in the common indent).
+Proof: an invariant of `getPatternLoop` over a state machine on the collected placeholders
+(`Ser.PInv`, `Ser.patternLoop_pinv`: placeholders well-shaped; role and cursor fit the last one;
+`common_indent` = minimum of the line indents so far; `kept_common_indent` = minimum up to `last_non_blank`)
+and an analysis of `finishElements` on such placeholder lists (`Ser.fin_shape`). -/
+theorem parse_pattern_shape (s : Src) (hcr : ∀ j : Nat, s[j]? ≠ some (13 : UInt8)) (n p : Nat)
+    (els : List (PatElem Span)) (q : Nat) (h : getPattern s n p = .ok (some els) q) :
+    mlPattern (mapPat (spanBytes s) els) = true :=
+  Ser.getPattern_mlPattern hcr n p els q h
+
+/-- **(a)+(b)+(c) every entry the parser produces is in the class, or Junk.**  For every byte source without
+`\r`: every entry of the tree returned by `parse` is Junk or satisfies `rtEntry` — identifiers, numbers,
+string literals, callees, named arguments, selectors, variant keys, default variants as the class asks
+(bridge from `ValidEntry`, `Parser.parse_valid`); every pattern at every depth (values, attribute values,
+variant values, also inside call arguments and nested placeables) an `rtPattern` (`parse_pattern_shape`
+lifted by `Ser.parse_deep`); every comment non-empty with lines free of line breaks
+(`Ser.parse_comments`). -/
+theorem parse_output_in_class (s : Src) (hcr : ∀ j : Nat, s[j]? ≠ some (13 : UInt8))
+    (t : Resource Span) (errs : List PErr) (h : parse s = .done (t, errs)) :
+    ∀ e ∈ t, (∃ c, e = .junk c) ∨ rtEntry (e.mapS (spanBytes s)) = true :=
+  Ser.rtEntry_of_parse s hcr (fun n p els q hg => Ser.getPattern_mlPattern hcr n p els q hg) t errs h
+
+/-- the parse tree of a `\r`-free source is `RoundTrippable false`; it is `RoundTrippable true` iff it has no Junk -/
+theorem parse_output_roundTrippable (s : Src) (hcr : ∀ j : Nat, s[j]? ≠ some (13 : UInt8))
+    (t : Resource Span) (errs : List PErr) (h : parse s = .done (t, errs)) (withJunk : Bool)
+    (hj : withJunk = true → ∀ e ∈ t, ∀ c, e ≠ .junk c) : RoundTrippable withJunk (resolve s t) = true :=
+  Ser.roundTrippable_of_parse s hcr (fun n p els q hg => Ser.getPattern_mlPattern hcr n p els q hg) t errs h withJunk hj
+
+/-- **(d) `C04_roundtrip_statement` and `C04_fixpoint_statement` for `with_junk = false`, for EVERY string
+without the byte 13** — no hypothesis on the tree, no fuel hypothesis: serialising the parse tree succeeds,
+the output parses, the re-parsed tree equals the original one under `norm false`, and serialising it again
+reproduces the output byte for byte. -/
+theorem C04_roundtrip_crfree_nojunk (str : String) (hcr : CRFree str) (t : Resource Span) (errs : List PErr)
+    (hp : parse str.toUTF8.data = .done (t, errs)) :
+    ∃ out, Ser.serialize false (resolve str.toUTF8.data t) = some out ∧
+      ∃ t' errs', parse out.toArray = .done (t', errs') ∧
+        norm false (resolve out.toArray t') = norm false (resolve str.toUTF8.data t) ∧
+        Ser.serialize false (resolve out.toArray t') = some out :=
+  roundtrip_class_sources str false t errs hp
+    (parse_output_roundTrippable _ hcr t errs hp false (fun h => by cases h))
+
+/-- **(d) both full statements for `with_junk = true`, for every string without the byte 13 whose tree
+contains no Junk entry.** -/
+theorem C04_roundtrip_crfree_junkfree (str : String) (hcr : CRFree str) (t : Resource Span) (errs : List PErr)
+    (hp : parse str.toUTF8.data = .done (t, errs)) (hj : ∀ e ∈ t, ∀ c, e ≠ .junk c) (withJunk : Bool) :
+    ∃ out, Ser.serialize withJunk (resolve str.toUTF8.data t) = some out ∧
+      ∃ t' errs', parse out.toArray = .done (t', errs') ∧
+        norm withJunk (resolve out.toArray t') = norm withJunk (resolve str.toUTF8.data t) ∧
+        Ser.serialize withJunk (resolve out.toArray t') = some out :=
+  roundtrip_class_sources str withJunk t errs hp (parse_output_roundTrippable _ hcr t errs hp withJunk (fun _ => hj))
+
+/-- **open part 1 of `C04_roundtrip_statement`: sources that contain `\r`.**  (CRLF line ends give trees whose
+text elements are split differently — `"x"`, `"\n"` instead of `"x\n"` — and are equal to the re-parsed tree
+only under `norm`; a lone `\r` stays inside text and is doubled by the `TextWriter` in front of `\n`.  On
+every tested source the model satisfies the statement; it is not proved.) -/
+def C04_roundtrip_cr_open : Prop :=
+  ∀ (str : String) (withJunk : Bool) (t : Resource Span) (errs : List PErr), ¬ CRFree str →
+    parse str.toUTF8.data = .done (t, errs) →
+    ∃ out, Ser.serialize withJunk (resolve str.toUTF8.data t) = some out ∧
+      ∃ t' errs', parse out.toArray = .done (t', errs') ∧
+        norm withJunk (resolve out.toArray t') = norm withJunk (resolve str.toUTF8.data t)
+
+/-- **open part 2 of `C04_roundtrip_statement`: Junk re-emitted verbatim (`with_junk = true`) in a `\r`-free
+source.**  It needs that the bytes of a broken entry, put in front of the *re-serialised* following entry,
+are broken in the same way (the failing run of `get_entry` may have looked into the first line of the next
+entry, up to its `=`; the serializer normalises the blanks there).  The C03 containment theorems
+(`Parser.parse_containment`) bound where the Junk ends, not what is produced before that point. -/
+def C04_roundtrip_junk_open : Prop :=
+  ∀ (str : String) (t : Resource Span) (errs : List PErr), CRFree str → (∃ e ∈ t, ∃ c, e = .junk c) →
+    parse str.toUTF8.data = .done (t, errs) →
+    ∃ out, Ser.serialize true (resolve str.toUTF8.data t) = some out ∧
+      ∃ t' errs', parse out.toArray = .done (t', errs') ∧
+        norm true (resolve out.toArray t') = norm true (resolve str.toUTF8.data t)
+
+/-- **the two open parts are all that is left**: `C04_roundtrip_statement` (hence, by
+`fixpoint_of_roundtrip`, `C04_fixpoint_statement`) follows from them. -/
+theorem C04_roundtrip_of_open (hcr : C04_roundtrip_cr_open) (hjunk : C04_roundtrip_junk_open) :
+    C04_roundtrip_statement := by
+  intro str withJunk t errs hp
+  by_cases hc : CRFree str
+  · cases withJunk with
+    | false =>
+      obtain ⟨out, h1, t', errs', h2, h3, _⟩ := C04_roundtrip_crfree_nojunk str hc t errs hp
+      exact ⟨out, h1, t', errs', h2, h3⟩
+    | true =>
+      by_cases hj : ∃ e ∈ t, ∃ c, e = .junk c
+      · exact hjunk str t errs hc hj hp
+      · have hj' : ∀ e ∈ t, ∀ c, e ≠ .junk c := fun e he c hec => hj ⟨e, he, c, hec⟩
+        obtain ⟨out, h1, t', errs', h2, h3, _⟩ := C04_roundtrip_crfree_junkfree str hc t errs hp hj' true
+        exact ⟨out, h1, t', errs', h2, h3⟩
+  · exact hcr str withJunk t errs hc hp
+
+/-- test: `CRFree` and the hypotheses of `C04_roundtrip_crfree_nojunk` are satisfiable, and the theorem's
+conclusion agrees with evaluation: `"a =\n    x\n     { $n ->\n   *[o] y\n    }\nerr {\n"` -/
+example : roundtripHolds "a =\n    x\n     { $n ->\n   *[o] y\n    }\nerr {\n".toUTF8.data false = true := by decide +kernel
 
 end FluentProofs.C04
